@@ -199,27 +199,45 @@ def _mutations_of_attr(mod, attr):
 def fresh_state_obligations(rep):
     """C04: per-instance state is created by dict/list displays (fresh objects) in __init__/clear; the script runs in a copy"""
     mod = core.module('engine')
-    for q, fields in (('YP.__init__', ('_atom_store', '_predicates_store')), ('YP.clear', ('_atom_store', '_predicates_store')),
-                      ('YP._set_default_eval_context', ('eval_context',))):
+    def fresh(v):
+        """an expression that makes a new object (or an immutable one) every time it is evaluated"""
+        if isinstance(v, (ast.Dict, ast.List, ast.Set, ast.Constant, ast.Tuple, ast.JoinedStr)):
+            return True
+        if isinstance(v, ast.Call) and isinstance(v.func, ast.Name) and v.func.id in ('dict', 'list', 'set', 'tuple') and not v.keywords \
+                and all(fresh(a) for a in v.args):
+            return True
+        if isinstance(v, ast.Call) and isinstance(v.func, ast.Attribute) and isinstance(v.func.value, ast.Name) and v.func.value.id == 'self':
+            return True         # built by a method of this instance
+        if isinstance(v, ast.Call) and isinstance(v.func, ast.Attribute) and isinstance(v.func.value, ast.Attribute) \
+                and ast.unparse(v.func.value).startswith('self.') and v.func.attr in ('keys', 'copy', 'items', 'values'):
+            return True         # a view / copy of this instance's own state
+        if isinstance(v, ast.Call) and isinstance(v.func, ast.Name) and v.func.id in ('dict', 'list', 'set', 'tuple') and len(v.args) == 1 \
+                and fresh(v.args[0]):
+            return True
+        return False
+    for q in ('YP.__init__', 'YP.clear', 'YP._set_default_eval_context'):
         fn = mod.functions.get(q)
         probs = []
-        for f in fields:
-            ok = False
-            for n in core.walk_own(fn) if fn else []:
-                if isinstance(n, ast.Assign) and any(isinstance(t, ast.Attribute) and t.attr == f and isinstance(t.value, ast.Name)
-                                                     and t.value.id == 'self' for t in n.targets):
-                    ok = isinstance(n.value, (ast.Dict, ast.List))
-                    if isinstance(n.value, ast.Dict) and f == 'eval_context':
-                        for k, v in zip(n.value.keys, n.value.values):
-                            if isinstance(k, ast.Constant) and k.value == '__builtins__':
-                                if not (isinstance(v, ast.Dict) and not v.keys):
-                                    probs.append('__builtins__ is not the empty dict display')
-                            # values: bound methods of self, module functions, constants
-                            if not (isinstance(v, (ast.Constant, ast.Dict)) or (isinstance(v, ast.Attribute) and isinstance(v.value, ast.Name)
-                                                                               and v.value.id == 'self') or isinstance(v, ast.Name)):
-                                probs.append('context value %s' % ast.unparse(v)[:40])
-            if not ok:
-                probs.append('self.%s is not assigned a fresh display' % f)
+        params = {a_.arg for a_ in fn.args.args} if fn else set()
+        nassign = 0
+        for n in core.walk_own(fn) if fn else []:
+            if isinstance(n, ast.Assign) and any(isinstance(t, ast.Attribute) and isinstance(t.value, ast.Name) and t.value.id == 'self'
+                                                 for t in n.targets):
+                nassign += 1
+                if not (fresh(n.value) or (isinstance(n.value, ast.Name) and n.value.id in params)):
+                    probs.append('line %d: %s is not a fresh object' % (n.lineno, ast.unparse(n)[:60]))
+                if isinstance(n.value, ast.Dict) and any(isinstance(k, ast.Constant) and k.value == '__builtins__' for k in n.value.keys):
+                    for k, v in zip(n.value.keys, n.value.values):
+                        if isinstance(k, ast.Constant) and k.value == '__builtins__':
+                            if not ((isinstance(v, ast.Dict) and not v.keys) or (isinstance(v, ast.Call) and ast.unparse(v) == 'dict()')):
+                                probs.append('__builtins__ is not the empty dict')
+                        # values: bound methods of self, module functions, constants
+                        if not (isinstance(v, (ast.Constant, ast.Dict)) or (isinstance(v, ast.Attribute) and isinstance(v.value, ast.Name)
+                                                                           and v.value.id == 'self') or isinstance(v, ast.Name)
+                                or (isinstance(v, ast.Call) and ast.unparse(v) == 'dict()')):
+                            probs.append('context value %s' % ast.unparse(v)[:40])
+        if fn is None or (nassign == 0 and q != 'YP.clear'):
+            probs.append('%s assigns no instance state' % q)
         rep.add_checked('engine.%s.frame.fresh_per_instance_state' % q, not probs, '; '.join(probs), 'ast', function='engine.' + q,
                         witness=probs or None)
     fn = mod.functions.get('YP.load_script_from_string')
@@ -330,18 +348,22 @@ def determinism_obligations(rep, modules=('yp_generator', 'yp_prolog_visitor', '
                     'not created in the call: ' + ', '.join(probs) if probs else '', 'ast', function='compiler._compile_prolog_from_stream',
                     witness=probs or None)
     # counters live on those per-call objects and start from constants
-    for m, q, fields in (('yp_prolog_visitor', 'YPPrologVisitor.__init__', ('anonymousVariableCounter', 'debug_indent')),
-                         ('yp_generator', 'YPPrologCompiler.__init__', ('cut_if_counter', 'bound_vars', 'head_args_by_pos')),
-                         ('yp_generator', 'YPPythonCodeGenerator.__init__', ('loop_level', 'indentation', 'tabwidth'))):
+    for m, q in (('yp_prolog_visitor', 'YPPrologVisitor.__init__'), ('yp_generator', 'YPPrologCompiler.__init__'),
+                 ('yp_generator', 'YPPythonCodeGenerator.__init__')):
         fn = core.module(m).functions.get(q)
         probs = []
-        for f in fields:
-            ok = False
-            for n in core.walk_own(fn) if fn else []:
-                if isinstance(n, ast.Assign) and any(isinstance(t, ast.Attribute) and t.attr == f for t in n.targets):
-                    ok = isinstance(n.value, (ast.Constant, ast.List, ast.Dict))
-            if not ok:
-                probs.append('%s not initialised from a constant' % f)
+        params = {a_.arg for a_ in fn.args.args} if fn else set()
+        n_state = 0
+        for n in core.walk_own(fn) if fn else []:
+            if isinstance(n, ast.Assign) and any(isinstance(t, ast.Attribute) and isinstance(t.value, ast.Name) and t.value.id == 'self'
+                                                 for t in n.targets):
+                n_state += 1
+                v = n.value
+                if not (isinstance(v, (ast.Constant, ast.List, ast.Dict, ast.Tuple)) or (isinstance(v, ast.Name) and v.id in params)
+                        or (isinstance(v, ast.Call) and ast.unparse(v.func) in ('dict', 'list') and not v.args and not v.keywords)):
+                    probs.append('line %d: %s is not initialised from a constant, an empty container or a parameter' % (n.lineno, ast.unparse(n)[:50]))
+        if fn is None or n_state == 0:
+            probs.append('%s not found / sets no state' % q)
         rep.add_checked('%s.%s.deterministic.state_initialised_per_object' % (m, q), not probs, '; '.join(probs), 'ast',
                         function='%s.%s' % (m, q), witness=probs or None)
 
